@@ -279,7 +279,7 @@ def gen_profile_case(rng, family=None):
     g = I.energy_at(spec, x0).gradient.asnumpy().astype(np.float64)
     d = -g * 2.0 ** -rng.randint(0, 4)
     kw = {}
-    c1 = rng.choice([1e-4, 1e-4, 2.0 ** -13, 0.01, 0.1])
+    c1 = rng.choice([1e-4, 1e-4, 2.0 ** -13, 0.01, 0.1, 0.25, 0.45])
     c2 = rng.choice([0.9, 0.9, 0.7, 0.5, 0.3, 0.95])
     if c1 < c2:
         kw["c1"], kw["c2"] = c1, c2
@@ -332,6 +332,27 @@ def gen_lsadv_case(rng, target=None):
             ref_val = rng.choice([armijo_line(a), f, f + armijo_line(a), armijo_line(a / 2)])
             script.append([ref_val + rng.choice([0.0, 2.0 ** -20, -2.0 ** -20, 0.125, -0.125]),
                            dphi0 * rng.choice([2.0, 0.1, -0.1])])
+    elif target == "zarmijo" and rng.random() < 0.6:
+        # values hugging the Armijo line: in the band between the line at alpha_j and the line at a *stale* step
+        # length (alpha_lo): needs a large c1, and alpha_lo either 0 or the first interpolated step (computed here as
+        # the code does: minimiser of the quadratic through (0, phi0, phi'0), (a1, phi_hi), else bisection)
+        c1 = rng.choice([0.0625, 0.25, 0.45])
+        c2 = rng.choice([0.5, 0.75, 0.9])
+        kw.update(c1=c1, c2=c2)
+        phi_hi = rng.choice([1.0, 0.5, 0.25, 4.0])
+        script.append([phi_hi, 0.0])
+        tiny = 2.0 ** -rng.randint(8, 20)
+        if rng.random() < 0.5:
+            script.append([-tiny, dphi0 * rng.choice([0.0, 0.1 * c2, -0.1 * c2])])
+        else:
+            B = (phi_hi - dphi0 * a1) / (a1 * a1)
+            aq = -dphi0 / (2.0 * B)
+            if not (0.1 * a1 <= aq <= 0.9 * a1):
+                aq = 0.5 * a1
+            f1 = c1 * aq * dphi0 - tiny
+            script.append([f1, dphi0 * rng.choice([2.0, 4.0])])
+            script.append([f1 - tiny / 4, dphi0 * rng.choice([0.0, 0.1 * c2, -0.1 * c2])])
+        f = -1.0
     else:
         # enter _zoom at once (Armijo fails at the first trial), then move alpha_lo a few times with steep slopes
         script.append([rng.choice([1.0, 0.5, 4.0]), 0.0])
